@@ -23,6 +23,7 @@ type clientHello struct {
 	hasECHOuterExtensions bool
 	tls13                 bool
 	echExt                *echExt
+	noExtensions          bool
 }
 
 // The ECH Extension as specified in Section 5 of
@@ -95,6 +96,9 @@ func (c *clientHello) marshal(aad bool) ([]byte, error) {
 				b.AddBytes(c.LegacyCompressionMethods)
 			})
 
+			if c.noExtensions {
+				return
+			}
 			b.AddUint16LengthPrefixed(func(b *cryptobyte.Builder) {
 				for _, ext := range c.Extensions {
 					b.AddUint16(ext.Type)
@@ -180,6 +184,13 @@ func parseClientHello(buf []byte) (*clientHello, error) {
 	//if len(hello.LegacyCompressionMethods) != 1 || hello.LegacyCompressionMethods[0] != 0x0 {
 	//	return nil, ErrIllegalParameter
 	//}
+
+	// RFC 8446 Section 4.1.2: ClientHello messages from prior versions of
+	// TLS may have no extensions field at all.
+	if s.Empty() {
+		hello.noExtensions = true
+		return hello, nil
+	}
 
 	var extensions cryptobyte.String
 	if !s.ReadUint16LengthPrefixed(&extensions) {
